@@ -81,11 +81,14 @@ static void fit_model(void *a_) {
 }
 
 // synthetic models: every persisted field filled with values of magnitude 1e-9..1e9, some optional fields left empty
-static void fill_vec(dvector *d, size_t n, Prng &r, double scale) { DVectorResize(d, n); for (size_t i = 0; i < n; i++) d->data[i] = r.normal() * scale; }
-static void fill_mat(matrix *m, size_t a, size_t b, Prng &r, double scale) { ResizeMatrix(m, a, b); for (size_t i = 0; i < a; i++) for (size_t j = 0; j < b; j++) m->data[i][j] = r.normal() * scale; }
+// a cell: mostly a full-precision value of the given magnitude; sometimes an exact integer, an exact zero or a negative zero (formatting corner cases)
+static double cell(Prng &r, double scale) { double v = r.normal() * scale; uint64_t q = r.below(100); if (q < 5) return fabs(v) < 9e15 ? (double)(long long)v : v; if (q < 7) return 0.0; if (q < 8) return -0.0; return v; }
+static void fill_vec(dvector *d, size_t n, Prng &r, double scale) { DVectorResize(d, n); for (size_t i = 0; i < n; i++) d->data[i] = cell(r, scale); }
+static void fill_mat(matrix *m, size_t a, size_t b, Prng &r, double scale) { ResizeMatrix(m, a, b); for (size_t i = 0; i < a; i++) for (size_t j = 0; j < b; j++) m->data[i][j] = cell(r, scale); }
 static double any_scale(Prng &r) { return pow(10.0, (double)r.range(-9, 9)); }
 static void synth_model(Model &m, Prng &r) {
   size_t n = (size_t)r.range(1, 7), p = (size_t)r.range(1, 4), k = (size_t)r.range(1, 3);
+  if (r.chance(0.04)) { n = (size_t)r.range(20, 60); p = (size_t)r.range(10, 40); k = (size_t)r.range(3, 8); }  // now and then a large model (long rows, many rows)
   if (m.kind == KIND_PCA) {
     fill_vec(m.pca->colaverage, p, r, any_scale(r)); if (r.chance(0.6)) fill_vec(m.pca->colscaling, p, r, any_scale(r));
     fill_vec(m.pca->varexp, k, r, 10); fill_mat(m.pca->scores, n, k, r, any_scale(r)); fill_mat(m.pca->loadings, p, k, r, 1);
